@@ -15,8 +15,8 @@ package main
 // This makes the rule independent of whether the test is written inline, in a loop, or in an extracted helper.
 
 import (
-	"os"
 	"fmt"
+	"os"
 
 	"golang.org/x/tools/go/ssa"
 )
